@@ -3,8 +3,11 @@ module verif/harness
 go 1.18
 
 require (
+	github.com/golang/protobuf v1.5.3
 	github.com/google/inverting-proxy v0.0.0
 	golang.org/x/net v0.23.0
 )
+
+require google.golang.org/protobuf v1.33.0 // indirect
 
 replace github.com/google/inverting-proxy => /repo
